@@ -2681,10 +2681,43 @@ def rule_setmin(toks, fired):
     return toks
 
 
+def rule_iterpos(toks, fired):
+    """iterpos:  X.iter().position(|&x| x == E)  ->  usize_slice_position(&X, E)     (unit chordal_snode: the renumbering loop of
+    pothen_sun).  The unit declares the helper with the ASSUMED documented meaning of Iterator::position over a slice of usize: the
+    index of the first element equal to E, or None if there is none.  (Verus rejects closures with a `&x` pattern.)  Fires only for a
+    closure whose parameter is `&IDENT` and whose body is exactly `IDENT == E`; E is evaluated once in both forms (it is an argument)."""
+    i = 0
+    while i < len(toks):
+        t = toks[i]
+        if t.kind == "ident" and t.text == "position" and not t.syn and toks[prev_code(toks, i - 1)].text == ".":
+            d_pos = prev_code(toks, i - 1)
+            q = prev_code(toks, d_pos - 1)
+            p1 = next_code(toks, i + 1)
+            if toks[p1].text == "(" and toks[q].text == ")":
+                qo = prev_code(toks, q - 1)
+                it = prev_code(toks, qo - 1)
+                d_it = prev_code(toks, it - 1)
+                pe = match_close(toks, p1)
+                c = [k for k in range(p1 + 1, pe) if toks[k].kind not in ("ws", "comment")]
+                if (toks[qo].text == "(" and toks[it].kind == "ident" and toks[it].text == "iter" and toks[d_it].text == "." and len(c) >= 7
+                        and [toks[k].text for k in c[:3]] == ["|", "&", toks[c[2]].text] and toks[c[2]].kind == "ident" and toks[c[3]].text == "|"
+                        and toks[c[4]].text == toks[c[2]].text and toks[c[5]].text == "=="
+                        and not any(toks[k].text in (",", "|", "||", "&&") for k in c[6:])):
+                    a = _postfix_start(toks, d_it)
+                    new = synth("usize_slice_position(&") + toks[a:d_it] + synth(", ") + toks[c[6]:pe] + synth(")")
+                    toks = toks[:a] + new + toks[pe + 1:]
+                    fired["iterpos"] = fired.get("iterpos", 0) + 1
+                    i = a + 1
+                    continue
+        i += 1
+    return toks
+
+
 RULES["strmatch"] = rule_strmatch
 RULES["extset"] = rule_extset
 RULES["setmin"] = rule_setmin
-RULE_ORDER[RULE_ORDER.index("R20"):RULE_ORDER.index("R20")] = ["strmatch", "extset", "setmin"]
+RULES["iterpos"] = rule_iterpos
+RULE_ORDER[RULE_ORDER.index("R20"):RULE_ORDER.index("R20")] = ["strmatch", "extset", "setmin", "iterpos"]
 
 
 def apply_rules(toks, rules, fired):
